@@ -15,6 +15,7 @@ mod layout;
 mod real;
 mod record;
 mod robust;
+mod session;
 mod small;
 mod stream;
 mod streamchk;
@@ -411,6 +412,7 @@ fn main() {
 		"blocks" => blocks::cmd_blocks(&a),
 		"ubjson" => container::cmd_ubjson(&a),
 		"slpp" => container::cmd_slpp(&a),
+		"session" => session::cmd_session(&a),
 		"edges" => robust::cmd_edges(&a),
 		"newer" => cmd_newer(&a),
 		"fuzz" => robust::cmd_fuzz(&a),
